@@ -1,2 +1,106 @@
+"""Mutation corpus: sensitivity tests of the *checker* (never of the cache).
+
+A mutant is a JSON file mutants/<name>.json:
+  {"desc": "...", "expect": ["C11", ...], "edits": [{"file": "src/...", "old": "...", "new": "..."}]}
+It is applied to a scratch copy of /repo's current working tree under /verif/.work/scratch, the driver
+is run on the copy, and the rule modules of the expected properties must report a violation that is
+not a listed known finding. Edits whose `old` text is no longer present are reported as skipped.
+"""
+import glob
+import json
+import os
+import shutil
+import subprocess
+import sys
+import uuid
+from concurrent.futures import ThreadPoolExecutor
+
+import engine
+
+MUT_DIR = os.path.join(engine.VERIF, "mutants")
+ALL_PROPS = ["C%02d" % i for i in range(1, 19)]
+
+
+def load(name_or_path):
+    p = name_or_path if os.path.exists(name_or_path) else os.path.join(MUT_DIR, name_or_path + ".json")
+    with open(p) as f:
+        m = json.load(f)
+    m["name"] = os.path.splitext(os.path.basename(p))[0]
+    return m
+
+
+def make_scratch(m, repo=None):
+    repo = repo or engine.REPO
+    d = os.path.join(engine.WORK, "scratch", "%s-%s" % (m["name"], uuid.uuid4().hex[:6]))
+    os.makedirs(os.path.dirname(d), exist_ok=True)
+    subprocess.check_call(["rsync", "-a", "--exclude", "target", "--exclude", ".git", repo + "/", d + "/"])
+    for e in m["edits"]:
+        p = os.path.join(d, e["file"])
+        with open(p) as f:
+            s = f.read()
+        if e["old"] not in s:
+            shutil.rmtree(d, ignore_errors=True)
+            return None
+        s = s.replace(e["old"], e["new"], e.get("count", 1))
+        with open(p, "w") as f:
+            f.write(s)
+    return d
+
+
+def run_mutant(m, props=None):
+    """returns dict(name, status, caught={prop: [keys]}, missed=[props])"""
+    props = props or m.get("expect") or ALL_PROPS
+    d = make_scratch(m)
+    if d is None:
+        return {"name": m["name"], "status": "skipped (edit no longer applies)", "caught": {}, "missed": []}
+    try:
+        try:
+            fp = subprocess.run([sys.executable, "-c",
+                                 "import sys; sys.path.insert(0, %r); import engine; print(engine.extract(%r))" % (os.path.join(engine.VERIF, "rules"), d)],
+                                stdout=subprocess.PIPE, stderr=subprocess.STDOUT, text=True)
+            if fp.returncode != 0:
+                return {"name": m["name"], "status": "does not compile: " + fp.stdout[-600:], "caught": {}, "missed": []}
+            facts = fp.stdout.strip().splitlines()[-1]
+        except Exception as e:  # pragma: no cover
+            return {"name": m["name"], "status": "error %s" % e, "caught": {}, "missed": []}
+        caught, missed = {}, []
+        for p in props:
+            modname = p.lower()
+            if not os.path.exists(os.path.join(engine.VERIF, "rules", modname + ".py")):
+                continue
+            obl, new, listed = engine.run_property(p, "quick", facts_path=facts, quiet=True, write_evidence=False)
+            if new:
+                caught[p] = [o["key"] for o in new]
+            elif p in (m.get("expect") or []):
+                missed.append(p)
+        os.remove(facts)
+        return {"name": m["name"], "status": "ok", "caught": caught, "missed": missed}
+    finally:
+        shutil.rmtree(d, ignore_errors=True)
+
+
+def corpus():
+    return [load(p) for p in sorted(glob.glob(os.path.join(MUT_DIR, "*.json")))]
+
+
 def run_corpus(prop):
-    return []
+    """thorough tier: every mutant expecting `prop` must be caught by prop's rules"""
+    ms = [m for m in corpus() if prop in (m.get("expect") or [])]
+    results = []
+    with ThreadPoolExecutor(max_workers=8) as ex:
+        for r in ex.map(lambda m: run_mutant(m, [prop]), ms):
+            results.append(r)
+    return results
+
+
+if __name__ == "__main__":
+    # usage: mutants.py <name|all> [props...]
+    names = sys.argv[1]
+    props = sys.argv[2:] or None
+    ms = corpus() if names == "all" else [load(n) for n in names.split(",")]
+    with ThreadPoolExecutor(max_workers=8) as ex:
+        for r in ex.map(lambda m: run_mutant(m, props if props else (ALL_PROPS if names != "all" else None)), ms):
+            print("%-40s %s caught=%s missed=%s" % (r["name"], r["status"][:200], {k: len(v) for k, v in r["caught"].items()}, r["missed"]))
+            for k, v in r["caught"].items():
+                for key in v[:4]:
+                    print("      %s %s" % (k, key))
